@@ -44,6 +44,15 @@ def unknown_keys(prog):
         cands = []
         if kf["k"] == "int":
             w = dsl.WIDTH[kf["ty"]]
+            # a key that equals a table key once its upper half is cut off (a factory keyed by a narrower type
+            # would take it for that table key), then plain absent values
+            if w >= 2:
+                for k in keys[:2]:
+                    n = (int.from_bytes(bytes(k), "big") + (1 << (8 * (w // 2)))) % (1 << (8 * w))
+                    b = list(n.to_bytes(w, "big"))
+                    if b not in keys and b not in cands:
+                        cands.append(b)
+                        break
             for n in (0, 7, 250, 99):
                 b = list(n.to_bytes(w, "big"))
                 if b not in keys:
@@ -104,19 +113,34 @@ def run_prog(cli, prog, tier, root, use_langs, nmsgs=0):
     comp = compile_prog(cli, prog, root)
     case, recs, keyrecs = make_case(prog, tier, nmsgs)
     res = {"prog": prog, "compile": comp, "msgs": recs, "keys": keyrecs, "sessions": {}}
+    per_lang = {}
     if comp["rc"] != 0:
-        return res
+        # one generator that crashes or rejects must not mask the other targets: compile each requested target alone
+        for l in use_langs:
+            c1 = compile_prog(cli, prog, os.path.join(root, "solo_" + l), targets=[l], text=comp["dsl"])
+            if c1["rc"] == 0:
+                per_lang[l] = c1
+        res["compile_solo"] = {l: c["rc"] for l, c in per_lang.items()}
+        if not per_lang:
+            return res
     for l in use_langs:
         plug = langs.get(l)
         if plug is None:
             continue
+        if comp["rc"] != 0:
+            if l not in per_lang:
+                continue
+            comp_l = per_lang[l]
+        else:
+            comp_l = comp
         sc = os.path.join(root, "scratch_" + l)
         os.makedirs(sc, exist_ok=True)
         if l == "lua":
             lcase = {"prog": prog, "ops": [{"op": "dissect", "id": r["id"], "bytes": r["ref"]} for r in recs]}
-            res["sessions"][l] = plug.session(comp["dirs"][l], lcase, sc)
+            res["sessions"][l] = plug.session(comp_l["dirs"][l], lcase, sc)
         else:
-            res["sessions"][l] = plug.session(comp["dirs"][l], case, sc)
+            res["sessions"][l] = plug.session(comp_l["dirs"][l], case, sc)
+        res.setdefault("dirs", {})[l] = comp_l["dirs"][l]
     return res
 
 
@@ -126,7 +150,7 @@ def lua_trace_of(results):
         prog = res["prog"]
         pid = prog.get("id", "?")
         s = res["sessions"].get("lua")
-        if res["compile"]["rc"] != 0 or s is None or s.get("unsupported") or s.get("crash"):
+        if s is None or s.get("unsupported") or s.get("crash"):
             continue
         events.append({"ev": "load", "prog": {k: prog[k] for k in ("opts", "metas", "pkts")}})
         meta.append({"prog": pid})
@@ -154,7 +178,7 @@ def trace_of(results, use_langs):
     for res in results:
         prog = res["prog"]
         pid = prog.get("id", "?")
-        if res["compile"]["rc"] != 0:
+        if not res["sessions"]:
             continue
         ev({"ev": "load", "prog": {k: prog[k] for k in ("opts", "metas", "pkts")}}, {"prog": pid})
         rootname = dsl.root(prog)["name"]
